@@ -9,10 +9,11 @@ import Nstd.Callback.Spec
     reset
     script <l> <s> <k> <action>*          body of slot s of listener l at its k-th invocation
     connect <e> <g> <l> <s> | disconnect <e> <g> <l> <s> | emit <e> <g> | dell <l> | dele <e>
+    newl <l> | newe <e>                   a destroyed object is replaced by a new one
     end                                   destroys the remaining listeners, then the remaining emitters
 
   script actions: `cEGLS` connect, `dEGLS` disconnect, `mEG` emit, `Ll` delete listener,
-  `Ee` delete emitter (single digits).
+  `Ee` delete emitter, `nl` new listener, `we` new emitter (single digits).
 
   Observation after a top-level action: the invocation log of that action and the
   bookkeeping of both sides,
@@ -40,7 +41,7 @@ structure DState where
   sr : Run Spec.SState
 
 def DState.init : DState :=
-  { table := [], mr := Run.init (State.create NE NL), sr := Run.init (Spec.SState.create NE NL) }
+  { table := [], mr := Run.init State.fresh NE NL, sr := Run.init Spec.SState.fresh NE NL }
 
 def lookupScript (t : List ((Nat × Nat × Nat) × List Action)) (l s k : Nat) : List Action :=
   match t.find? (fun x => x.1 == (l, s, k)) with
@@ -57,6 +58,8 @@ def parseAction (t : String) : Option Action :=
   | ['m', e, g] => do pure (.emit (← digit e NE) (← digit g NG))
   | ['L', l] => do pure (.delL (← digit l NL))
   | ['E', e] => do pure (.delE (← digit e NE))
+  | ['n', l] => do pure (.newL (← digit l NL))
+  | ['w', e] => do pure (.newE (← digit e NE))
   | _ => none
 
 def num (t : String) (bound : Nat) : Option Nat :=
@@ -71,40 +74,42 @@ def parseTop (ws : List String) : Option Action :=
   | ["emit", e, g] => do pure (.emit (← num e NE) (← num g NG))
   | ["dell", l] => do pure (.delL (← num l NL))
   | ["dele", e] => do pure (.delE (← num e NE))
+  | ["newl", l] => do pure (.newL (← num l NL))
+  | ["newe", e] => do pure (.newE (← num e NE))
   | _ => none
 
-def slotStr (x : Slot) : String :=
-  s!"{x.receiver}.{x.slot}" ++ (match x.state with | .connected => "" | .connecting => "n" | .disconnected => "d")
+def slotStr (lIdx : Nat → Nat) (x : Slot) : String :=
+  s!"{lIdx x.receiver}.{x.slot}" ++ (match x.state with | .connected => "" | .connecting => "n" | .disconnected => "d")
 
-def slotsStr (d : Option SignalData) : String :=
+def slotsStr (lIdx : Nat → Nat) (d : Option SignalData) : String :=
   match d with
   | none => "-"
   | some d =>
-    (if d.slots.isEmpty then "-" else ",".intercalate (d.slots.map slotStr)) ++
+    (if d.slots.isEmpty then "-" else ",".intercalate (d.slots.map (slotStr lIdx))) ++
       (if d.dirty || d.activation.isSome then "!" else "")
 
-def emitterStr (st : State) (e : Nat) : String :=
+def emitterStr (r : Run State) (e : Nat) : String :=
   s!"E{e}:" ++
-    match st.emitters e with
+    match r.m.emitters (r.emId e) with
     | none => "x"
-    | some em => " ".intercalate ((List.range NG).map (fun g => s!"g{g}=" ++ slotsStr (em.sig g)))
+    | some em => " ".intercalate ((List.range NG).map (fun g => s!"g{g}=" ++ slotsStr r.lIdx (em.sig g)))
 
 def pairsStr (l : List (Nat × Nat)) : String :=
   if l.isEmpty then "-" else ",".intercalate (l.map (fun p => s!"{p.1}.{p.2}"))
 
-def listenerStr (st : State) (l : Nat) : String :=
+def listenerStr (r : Run State) (l : Nat) : String :=
   s!"L{l}:" ++
-    match st.listeners l with
+    match r.m.listeners (r.lId l) with
     | none => "x"
-    | some li => " ".intercalate ((List.range NE).map (fun e => s!"e{e}=" ++ pairsStr (li.sigs e)))
+    | some li => " ".intercalate ((List.range NE).map (fun e => s!"e{e}=" ++ pairsStr (li.sigs (r.emId e))))
 
 def logStr (log : List (Nat × Nat)) : String :=
   "log" ++ String.join (log.reverse.map (fun p => s!" {p.1}.{p.2}"))
 
 def obs (d : DState) : String :=
   let st := d.mr.m
-  logStr d.mr.log ++ " | " ++ " ".intercalate ((List.range NE).map (emitterStr st)) ++ " | " ++
-    " ".intercalate ((List.range NL).map (listenerStr st)) ++
+  logStr d.mr.log ++ " | " ++ " ".intercalate ((List.range NE).map (emitterStr d.mr)) ++ " | " ++
+    " ".intercalate ((List.range NL).map (listenerStr d.mr)) ++
     (if d.mr.log != d.sr.log then " SPECDIFF" else "") ++
     (if st.fault || d.mr.bad || !st.frames.isEmpty then " FAULT" else "") ++
     (if d.mr.oof || d.sr.oof then " OOF" else "")
